@@ -471,9 +471,10 @@ var configs = map[string]config{
 	},
 	// object keys in unusual literal spellings (parenthesised, conditional with a
 	// null result, escapes, keywords) in schema-known and unknown places; a keyword
-	// constraint met by a longer traversal whose root name is the keyword
+	// constraint met by a longer traversal whose root name is the keyword; more static
+	// blocks than the maximum next to a dynamic block of the same type
 	"tf-oddkeys": {
-		Root: map[string]string{"main.tf": "locals {\n  odd = {\n    (\"pk\") = 1\n    (true ? null : \"nk\") = 2\n    (false ? \"fk\" : null) = 3\n    \"e\\\"k\" = 4\n    true = 5\n    null = 6\n    plain = { (\"in\") = [1, { (true ? null : \"x\") = 2 }] }\n  }\n}\n\nresource \"aws_instance\" \"k\" {\n  ami           = \"a\"\n  instance_type = \"t\"\n  tags = {\n    (\"Name\") = \"n\"\n    (true ? null : \"Env\") = \"e\"\n    \"a\\\"b\" = \"q\"\n    (local.missing) = \"m\"\n    (nope()) = \"f\"\n    plain = \"p\"\n  }\n  cpu = {\n    (\"cores\") = 2\n    \"thr\\u0065ads\" = 4\n  }\n  lifecycle {\n    ignore_changes = all.items\n  }\n}\n\nresource \"aws_instance\" \"k2\" {\n  ami           = \"a\"\n  instance_type = \"t\"\n  lifecycle {\n    ignore_changes = all[0]\n  }\n}\n"},
+		Root: map[string]string{"main.tf": "locals {\n  odd = {\n    (\"pk\") = 1\n    (true ? null : \"nk\") = 2\n    (false ? \"fk\" : null) = 3\n    \"e\\\"k\" = 4\n    true = 5\n    null = 6\n    plain = { (\"in\") = [1, { (true ? null : \"x\") = 2 }] }\n  }\n}\n\nresource \"aws_instance\" \"k\" {\n  ami           = \"a\"\n  instance_type = \"t\"\n  tags = {\n    (\"Name\") = \"n\"\n    (true ? null : \"Env\") = \"e\"\n    \"a\\\"b\" = \"q\"\n    (local.missing) = \"m\"\n    (nope()) = \"f\"\n    plain = \"p\"\n  }\n  cpu = {\n    (\"cores\") = 2\n    \"thr\\u0065ads\" = 4\n  }\n  lifecycle {\n    ignore_changes = all.items\n  }\n}\n\nresource \"aws_instance\" \"k2\" {\n  ami           = \"a\"\n  instance_type = \"t\"\n  lifecycle {\n    ignore_changes = all[0]\n  }\n  network_interface {\n    device_index = 0\n  }\n  network_interface {\n    device_index = 1\n  }\n  network_interface {\n    device_index = 2\n  }\n  dynamic \"network_interface\" {\n    for_each = []\n    content {\n      device_index = 3\n    }\n  }\n}\n"},
 	},
 	"tf-child-only": {
 		Root:  map[string]string{"main.tf": "module \"kid\" {\n  source = \"./child\"\n  name   = \"n\"\n}\n\noutput \"g\" {\n  value = module.kid.greeting\n}\n"},
